@@ -841,7 +841,16 @@ def _long_chain(n=12):
     return h
 
 
+BAD = {"__unstorable__": 1}
+
 SCENARIOS = {
+    # a write that fails (value without HDF5 equivalent) after a delete in the same patch: the deleted node stays deleted
+    "failed-set-after-delete": [["set", "a", 1], ["set", "g/x", 2], ["commit"], ["del", "a"], ["set", "a", BAD], ["del", "g/x"], ["set", "g/x", BAD], ["commit"], ["set", "b", 3], ["set", "a", BAD]],
+    "failed-set-missing-parent": [["set", "k", 1], ["set", "n/m", BAD]],
+    "failed-set-fresh": [["set", "a", BAD], ["mkgrp", "g"], ["set", "g/x", BAD], ["commit"], ["set", "g/y", BAD], ["setattr", "g", "k", BAD]],
+    # user data that merely has the byte of the deletion marker
+    "marker-lookalike-values": [["set", "a", {"__np__": "uint8", "value": 127}], ["set", "b", {"__np__": "int8", "value": 127}], ["setattr", "/", "k", {"__np__": "uint8", "value": 127}], ["commit"],
+                                ["set", "g/c", {"__np__": "uint8", "value": 127}], ["del", "a"], ["commit"], ["set", "a", {"__np__": "uint8", "value": 127}]],
     # many patches (reopen by name must find every container, also beyond .p9)
     "long-chain-12": _long_chain(12),
     # keys from the documented alphabet that are regular-expression metacharacters
